@@ -57,18 +57,27 @@ PosOf(input, b, off) ==
 (* which case the next out token equals it after the enabled rewrites -- and, if  *)
 (* withPos, reports the position of its first character in the input.             *)
 Aligned(o, kind, input, base, out, withPos) ==
-  LET RECURSIVE M(_, _, _)
-      M(i, j, off) ==
-        IF i > Len(base) THEN j > Len(out)
-        ELSE LET b == base[i]
+  \* one left-to-right pass over the option-free stream; the accumulator is <<still aligned, next output index,
+  \* characters before the token, <<line, column>> after those characters>>
+  LET step(acc, b) ==
+        IF ~acc[1] THEN acc
+        ELSE LET j == acc[2]  off == acc[3]  lc == acc[4]
                  off2 == off + Len(b[2])
-             IN \/ (MayDrop(o, b) /\ M(i + 1, j, off2))
-                \/ /\ ~MustDrop(o, b)
-                   /\ j <= Len(out)
-                   /\ <<out[j][1], out[j][2]>> = Rewrite(o, kind, b)
-                   /\ (withPos => <<out[j][3], out[j][4]>> = PosOf(input, b, off))
-                   /\ M(i + 1, j + 1, off2)
-  IN M(1, 1, 0)
+                 lc2 == IF withPos THEN LCAdv(input, lc, off, off2) ELSE lc
+                 pos == IF b[1] = TEof THEN <<lc[1], lc[2] + 1>> ELSE LCAdv(input, lc, off, off + 1)
+                 match == /\ j <= Len(out)
+                          /\ <<out[j][1], out[j][2]>> = Rewrite(o, kind, b)
+                          /\ (withPos => <<out[j][3], out[j][4]>> = pos)
+             \* Deterministic (one pass): a token that must go is dropped; otherwise it is kept when the next output token
+             \* is its rewrite, else dropped if an option allows that.  This decides the existence of an alignment: the only
+             \* tokens that may but need not go are whitespace tokens, and if some alignment drops one whose rewrite the next
+             \* output token equals, that output token is matched by a later whitespace token with the same rewrite (all
+             \* tokens in between dropped), so keeping the earlier and dropping the later one is an alignment too.
+             IN IF MustDrop(o, b) THEN <<TRUE, j, off2, lc2>>
+                ELSE IF match THEN <<TRUE, j + 1, off2, lc2>>
+                ELSE IF MayDrop(o, b) THEN <<TRUE, j, off2, lc2>> ELSE <<FALSE, j, off2, lc2>>
+      r == FoldL(step, <<TRUE, 1, 0, <<1, 0>>>>, base)
+  IN r[1] /\ r[2] > Len(out)
 
 \* what must be true of the output with the respective option ON
 OnFails(o, out) ==
